@@ -264,7 +264,8 @@ def gen_b(rng, tier):
         how = rng.choice(["missing", "missing", "dir", "invalid"]) if kind == "cfg" else rng.choice(["missing", "dir", "unreadable"])
         sabotage = {"file": f, "how": how, "depth": depth, "kind": kind}
     w = {"dirs": dirs, "files": files, "symlinks": symlinks, "cwd": cwd, "env": {}}
-    b = {"feats": sorted(feats), "opts": opts, "op": op, "expected": expected, "metas": metas, "sabotage": sabotage, "sweep": {"max_sites": 40 if tier == "quick" else 80, "errno": rng.choice(["EACCES", "ENOENT", "EIO", "EMFILE"]), "adversary": rng.choice(["delete", "chmod0", "mkdir", "truncate"])}}
+    must_exist = sorted(set([D0 + "/main.yaml"] + [r[1] for r in refs] + (["dflt/d.yaml"] if "dcf" in feats else [])))
+    b = {"feats": sorted(feats), "opts": opts, "op": op, "expected": expected, "must_exist": must_exist, "metas": metas, "sabotage": sabotage, "sweep": {"max_sites": 40 if tier == "quick" else 80, "errno": rng.choice(["EACCES", "ENOENT", "EIO", "EMFILE"]), "adversary": rng.choice(["delete", "chmod0", "mkdir", "truncate"])}}
     return {"part": "b", "world": w, "b": b, "faults": [], "tier": tier}
 
 
@@ -569,7 +570,12 @@ def b_run(sc, root, faults, judge_leaves):
             os.chdir(cwd0)
         if judge_leaves and not fired:
             sab = b.get("sabotage")
-            if sab is None:
+            healthy = all(os.path.isfile(os.path.join(root, f)) for f in b.get("must_exist", [])) and all(
+                os.path.isfile(sp if os.path.isabs(sp) else os.path.join(root, base, sp)) for sp, base in b["expected"].values()
+            )
+            if sab is None and not healthy:
+                sim.probe("b-premise-broken")  # e.g. a minimisation candidate that dropped a referenced file: no verdict
+            elif sab is None:
                 if o.kind != "ret":
                     msg = o.text or o.stderr
                     import re
